@@ -2601,6 +2601,9 @@ func (p *Parser) caseItems(stop string) (items []*CaseItem) {
 				p.curErr("case patterns must be separated with %#q", or)
 			}
 		}
+		if len(ci.Patterns) == 0 {
+			break // the input ended right after "(" or "in"
+		}
 		old := p.preNested(switchCase)
 		p.next()
 		ci.Stmts, ci.Last = p.stmtList(stop)
